@@ -1,6 +1,7 @@
 (* Model/Patch.v — the text layer between apply.rs and diffy that C01 depends on:
-   split_preserving_newlines, replace_patch_headers (header rewrite), and the header part of
-   diffy 0.4.2's parser (skip_header_preamble + patch_header).  The hunk body is opaque here
+   split_preserving_newlines, replace_patch_headers (header rewrite, with quote_for_patch), and the
+   header part of diffy 0.4.2's parser (skip_header_preamble + patch_header + parse_filename with
+   its quoted and unquoted branches).  The hunk body is opaque here
    (diffy's diff and apply are an oracle).  Executable, no proofs. *)
 From Coq Require Import Strings.String.
 From RN Require Export Base.Bytes Base.Str.
@@ -23,22 +24,45 @@ Definition minus3 : bytes := bs "--- ".
 Definition plus3 : bytes := bs "+++ ".
 Definition at2 : bytes := bs "@@".
 
+(* ESCAPED_CHARS_BYTES (diffy) and the character set of quote_for_patch (apply.rs): tab, newline,
+   NUL, CR, double quote and backslash.  They are rejected in an unquoted file name. *)
+Definition bad_name_char (c : N) : bool :=
+  (c =? 9) || (c =? 10) || (c =? 0) || (c =? 13) || (c =? 34) || (c =? 92).
+
+(* apply.rs::replace_patch_headers, closure quote_for_patch: the escape written for one character
+   of a name that has to be quoted (backslash then n, t, 0, r, double quote or backslash; anything else as it is) *)
+Definition esc_char (c : N) : bytes :=
+  if c =? 10 then [92; 110]
+  else if c =? 9 then [92; 116]
+  else if c =? 0 then [92; 48]
+  else if c =? 13 then [92; 114]
+  else if c =? 34 then [92; 34]
+  else if c =? 92 then [92; 92]
+  else [c].
+
+(* quote_for_patch: a name with none of the six characters is written as it is; any other name is
+   written in the quoted form of the unified diff format: a double quote, the escaped characters, a double quote *)
+Definition quote_name (n : bytes) : bytes :=
+  if existsb bad_name_char n then [34] ++ concat (map esc_char n) ++ [34] else n.
+
 (* apply.rs::replace_patch_headers as repaired: only lines before the first hunk header are
-   file-name headers *)
+   file-name headers, and the names are written through quote_for_patch *)
 Fixpoint rewrite_lines (in_header : bool) (from to : bytes) (ls : list bytes) : list bytes :=
   match ls with
   | [] => []
   | l :: ls' =>
       let in_header' := if starts_with at2 l then false else in_header in
-      (if in_header' && starts_with minus3 l then minus3 ++ from ++ line_ending l
-       else if in_header' && starts_with plus3 l then plus3 ++ to ++ line_ending l
+      (if in_header' && starts_with minus3 l then minus3 ++ quote_name from ++ line_ending l
+       else if in_header' && starts_with plus3 l then plus3 ++ quote_name to ++ line_ending l
        else l) :: rewrite_lines in_header' from to ls'
   end.
 Definition rewrite_headers (from to patch : bytes) : bytes :=
   concat (rewrite_lines true from to (split_lines patch)).
 
-(* the pre-repair behaviour (every line starting with "--- " / "+++ " is rewritten), kept to
-   state what was wrong *)
+(* the historical behaviour, kept to state what was wrong: every line starting with "--- " /
+   "+++ " is rewritten (first repair: only the header lines are), and the names are written bare
+   (this variant also predates quote_for_patch, the second repair: a name with one of the six
+   characters gave a header diffy rejects) *)
 Definition rewrite_headers_old (from to patch : bytes) : bytes :=
   concat (map (fun l => if starts_with minus3 l then minus3 ++ from ++ line_ending l
                         else if starts_with plus3 l then plus3 ++ to ++ line_ending l else l)
@@ -54,29 +78,70 @@ Fixpoint skip_preamble (ls : list bytes) : list bytes :=
                 else skip_preamble ls'
   end.
 
-(* ESCAPED_CHARS_BYTES: tab, newline, NUL, CR, double quote and backslash are rejected in an
-   unquoted file name *)
-Definition bad_name_char (c : N) : bool :=
-  (c =? 9) || (c =? 10) || (c =? 0) || (c =? 13) || (c =? 34) || (c =? 92).
-
-(* parse_filename for an unquoted name: up to the first tab, else up to the newline, which must
-   be there *)
+(* parse_filename: the name runs up to the first tab, else up to the newline, which must be there *)
 Fixpoint take_until (c : N) (s : bytes) : option bytes :=
   match s with
   | [] => None
   | x :: s' => if x =? c then Some [] else option_map (cons x) (take_until c s')
   end.
+
+(* str::strip_suffix for a one-character pattern *)
+Definition strip_last (c : N) (s : bytes) : option bytes :=
+  match rev s with
+  | x :: r => if x =? c then Some (rev r) else None
+  | [] => None
+  end.
+
+(* is_quoted: strip_prefix of a double quote and then strip_suffix of a double quote on what is
+   left, so a lone double quote is not a quoted name *)
+Definition is_quoted (s : bytes) : option bytes :=
+  match s with
+  | c :: s' => if c =? 34 then strip_last 34 s' else None
+  | [] => None
+  end.
+
+(* unescaped_filename: none of the six characters may occur *)
+Definition unescaped_filename (n : bytes) : option bytes :=
+  if existsb bad_name_char n then None else Some n.
+
+(* escaped_filename: a backslash must be followed by one of n, t, 0, r, double quote, backslash; a raw one of the six
+   characters (other than the backslash that starts an escape) is an error *)
+Definition unesc_char (e : N) : option N :=
+  if e =? 110 then Some 10
+  else if e =? 116 then Some 9
+  else if e =? 48 then Some 0
+  else if e =? 114 then Some 13
+  else if e =? 34 then Some 34
+  else if e =? 92 then Some 92
+  else None.
+Fixpoint escaped_filename (s : bytes) : option bytes :=
+  match s with
+  | [] => Some []
+  | c :: s' =>
+      if c =? 92 then
+        match s' with
+        | [] => None                                        (* expected escaped character *)
+        | e :: s'' =>
+            match unesc_char e with
+            | Some ch => option_map (cons ch) (escaped_filename s'')
+            | None => None                                  (* invalid escaped character *)
+            end
+        end
+      else if bad_name_char c then None                     (* invalid unescaped character *)
+      else option_map (cons c) (escaped_filename s')
+  end.
+
 Definition parse_filename (rest : bytes) : option bytes :=
   let name := match take_until 9 rest with
               | Some n => Some n
               | None => take_until 10 rest
               end in
   match name with
-  | None => None
+  | None => None                                            (* filename unterminated *)
   | Some n =>
-      match n with
-      | 34 :: _ => None      (* quoted names: not produced by renamify; treated as unsupported *)
-      | _ => if existsb bad_name_char n then None else Some n
+      match is_quoted n with
+      | Some q => escaped_filename q
+      | None => unescaped_filename n
       end
   end.
 
@@ -128,5 +193,6 @@ Definition body_ok (body : list bytes) : bool :=
               forallb (fun l => negb (existsb (N.eqb 10) (removelast l))) body
   end.
 
+(* the names that are written bare (and were the only ones the historical rewrite handled) *)
 Definition name_ok (n : bytes) : bool :=
   negb (existsb bad_name_char n) && match n with 34 :: _ => false | _ => true end.
